@@ -580,8 +580,10 @@ public:
     //! return a splitter
     key_type get_splitter(unsigned int i) const
     {
+        // i is zero-based like in the other classifiers, the tree
+        // calculations number the splitters from one.
         return splitter_tree_
-            [PerfectTreeCalculations<treebits>::pre_to_levelorder(i)];
+            [PerfectTreeCalculations<treebits>::pre_to_levelorder(i + 1)];
     }
 
 private:
